@@ -911,7 +911,24 @@ def _obj_term(case):
         OKIND[case["cls"]], clist(_pt(p) for p in case["verts"]), clist(clist(cnat(v) for v in c) for c in case["cells"]))
 
 
+def _ghost_then_copy(obs):
+    """a refused add_data (which, without the roll-back in Entity.__init__, leaves an unregistered child) followed by a copy"""
+    seen = False
+    for op, st in zip(obs.get("executed", []), obs.get("steps", [])):
+        if op["op"] == "add" and st["err"] is not None:
+            seen = True
+        elif op["op"] == "copy" and seen:
+            return True
+    return False
+
+
 def case_term(case, obs):
+    if case.get("kind") is None and "steps" in obs:
+        _flags_term()
+        if not _FLAGS["add_rollback"] and _ghost_then_copy(obs):
+            # tree without the roll-back: the copy re-uses the unregistered child's uid and what later snapshots show depends on
+            # file-level state outside this model (C02/C06 territory) - no prediction
+            return None
     try:
         return _case_term(case, obs)
     except Exception:  # noqa: BLE001 - an observation the term builder cannot print is a disagreement, not a crash
